@@ -158,18 +158,26 @@ def Seg.freeSlot (s : Seg) (a : Nat) : Seg :=
   let s := (s.dropEnds a).unchild a
   (detachChildren s a (s.slots.size + 1)).recycle a
 
+/-- the tail of `Segment::appendSlot`: `if (m_last) m_last->next(aSlot); aSlot->prev(m_last); m_last = aSlot;
+if (!m_first) m_first = aSlot;` -/
+def Seg.pushBack (s : Seg) (a : Nat) : Seg :=
+  let s1 := match s.last with
+    | some l => s.upd l fun sl => sl.setNext (some a)
+    | none => s
+  let s2 := (s1.upd a fun sl => sl.setPrev s.last).setLast (some a)
+  if s.first.isNone then s2.setFirst (some a) else s2
+
+/-- what `appendSlot` writes into the new slot -/
+def Slot.initFor (sl : Slot) (id gid : Nat) (adv : Int) : Slot :=
+  { sl with child := none, gid := gid, original := id, before := id, after := id, advX := adv }
+
+def Slot.setIndex (sl : Slot) (k : Nat) : Slot := { sl with index := k }
+
 /-- `Segment::appendSlot(id, cid, gid, …)` as far as the heap goes -/
 def Seg.appendSlot (s : Seg) (id gid : Nat) (growthFactor : Nat) (adv : Int := 0) : Seg :=
   match s.newSlot growthFactor with
   | none => s
-  | some (a, s) =>
-    let s := s.upd a fun sl => { sl with child := none, gid := gid, original := id, before := id, after := id, advX := adv }
-    let s := match s.last with
-      | some l => s.upd l fun sl => sl.setNext (some a)
-      | none => s
-    let s := s.upd a fun sl => sl.setPrev (s.last)
-    let s := s.setLast (some a)
-    if s.first.isNone then s.setFirst (some a) else s
+  | some (a, s) => (s.upd a fun sl => sl.initFor id gid adv).pushBack a
 
 /-! ## the rule context (`SlotMap`) and the machine registers of an action -/
 
